@@ -7,4 +7,4 @@ def check(run, tier, seed, replay=None):
     pc.phase_check(run, "C02", tier, seed, replay, scs, "C02Corr.judge",
                    lambda sc, obs: "C02 adoption from a higher revision, lowered revision, or more/less than one controller after handover",
                    "adoption table and seeded random multi-object phases (handover states: previous direct / via remote phase / "
-                   "demoted / stale uid / foreign), both strategies")
+                   "demoted / stale uid / foreign), both strategies", faults=True)
